@@ -11,7 +11,9 @@
 (*    l2/l3/t            the TARGET (working directory / new instance)     *)
 (*    l2/l3/a            a file outside        l2/l3/b/a  another one      *)
 (*                       (the driver renders b as "tb" and the target as   *)
-(*                       "t": a sibling whose name extends the target's)   *)
+(*                       "t": a sibling whose name extends the target's;   *)
+(*                       segment e is "te": such a sibling that does not   *)
+(*                       exist yet; c is an unrelated new name)            *)
 (*    l2/l3/p, l2/l3/q   sources (package folders / producer directories), *)
 (*                       each with a file `a` and a directory `d` (file a) *)
 (*                                                                         *)
@@ -255,9 +257,26 @@ Apply(fs, inp, i) == CASE Mode = "archive" -> ApplyMember(fs, inp, i, Target)
 TouchedName(fs, n) == LET par == Walk(Target, Front(n), fs, {}, Fuel, FALSE)
                       IN IF ~par.ok THEN {} ELSE Touched(fs, Loc(par.p, Last(n)))
 Late(fs, late) == UNION {TouchedName(fs, n) : n \in late}
+(* After the manifest entries the deployment stores the workflow definition as conf/flowir_package.yaml: the directory   *)
+(* conf is made unless the manifest has an entry literally called conf (then whatever that entry put there is used: a    *)
+(* copied folder -- or a LINK to the source folder, through which the file is then written).                            *)
+ConfDir == Append(Target, "conf")
+Epilogue(fs, inp) ==
+    IF Mode # "manifest" THEN Res(TRUE, fs, {})
+    ELSE LET has == \E j \in 1..Len(inp) : inp[j].n = <<"conf">>
+         IN IF ~has /\ Kind(fs, ConfDir) # "none" THEN Res(FALSE, fs, {})                      \* os.makedirs: it exists
+            ELSE LET fs1 == IF has THEN fs ELSE Put(fs, E(ConfDir, "dir", <<>>))
+                     made == IF has THEN {} ELSE {ConfDir}
+                     d == Final(ConfDir, fs1, Fuel)
+                 IN IF ~d.ok \/ Kind(fs1, d.p) # "dir" THEN Res(FALSE, fs1, made)
+                    ELSE LET f == Final(Append(d.p, "flowir_package.yaml"), fs1, Fuel)
+                         IN IF ~f.ok \/ Kind(fs1, f.p) = "dir" THEN Res(FALSE, fs1, made)
+                            ELSE Res(TRUE, Put(fs1, E(f.p, "file", <<>>)), made \cup {f.p})
+
 RECURSIVE Run(_, _, _, _, _)
 Run(fs, inp, i, w, late) ==
-    IF i > Len(inp) THEN [w |-> w \cup Late(fs, late), failed |-> FALSE, fs |-> fs]
+    IF i > Len(inp) THEN LET e == Epilogue(fs, inp)
+                         IN [w |-> w \cup Late(fs, late) \cup e.w, failed |-> ~e.ok, fs |-> e.fs]
     ELSE LET r == Apply(fs, inp, i)
          IN IF r.ok THEN Run(r.fs, inp, i + 1, w \cup r.w, late \cup r.late)
             ELSE [w |-> w \cup r.w, failed |-> TRUE, fs |-> r.fs]
@@ -326,7 +345,10 @@ Step == /\ pc = "run" /\ i <= Len(input)
               /\ IF r.ok THEN i' = i + 1 /\ pc' = "run" ELSE i' = i /\ pc' = "failed"
         /\ UNCHANGED input
 Finish == /\ pc = "run" /\ i > Len(input)
-          /\ pc' = "done" /\ writes' = writes \cup Late(fs, late) /\ UNCHANGED <<input, i, fs, late>>
+          /\ LET e == Epilogue(fs, input)
+             IN /\ pc' = (IF e.ok THEN "done" ELSE "failed")
+                /\ writes' = writes \cup Late(fs, late) \cup e.w /\ fs' = e.fs
+          /\ UNCHANGED <<input, i, late>>
 Next == Reject \/ Accept \/ Step \/ Finish
 Spec == Init /\ [][Next]_vars
 
